@@ -75,7 +75,7 @@ def evaluate(progs, want_build=True, want_run=True, keep=False, vet=False):
         for ur in units:
             gp = "%s/%s/%s/wire_gen.go" % (root, ur.prog.name, ur.prog.pkgmap["app"]["dir"])
             if ur.wire_errors:
-                ur.impl = C.norm_err("err " + " ".join(C.classify(ur.ix, m) for m in ur.wire_errors))
+                ur.impl = C.norm_err(C.norm_unused(ur.ix, "err " + " ".join(C.classify(ur.ix, m) for m in ur.wire_errors)))
             elif ur.pkg_status == "wrote" and gp in irs:
                 f = irs[gp]
                 fn = next((x for x in f["funcs"] if x["name"] == ur.u.inj["name"]), None)
@@ -108,7 +108,7 @@ def evaluate(progs, want_build=True, want_run=True, keep=False, vet=False):
                 if ur.model.startswith("err") and "importfailed" in ur.model:
                     rcs = C.root_causes(ur.model_sets)
                     ur.model = "err " + " ".join(sorted(rcs))
-                ur.model = C.norm_err(ur.model)
+                ur.model = C.norm_err(C.norm_unused(ur.ix, ur.model))
                 # inject's signature test comes after planning: the verdict of the whole pipeline
                 if ur.model.startswith("ok") and (ur.emit_model or "").startswith("err"):
                     ur.model = C.norm_err(ur.emit_model)
